@@ -1,9 +1,14 @@
 #!/bin/bash
-# try_seeded.sh <ID> <patch.diff> [seed]  - applies the patch to /repo, runs the quick check, undoes it.
+# try_seeded.sh <ID> <patch.diff> [seed]  - runs the quick check of <ID> against the change.
+# The patch is applied to a scratch worktree of /repo HEAD (removed afterwards) and the check is pointed at it with
+# VERIF_REPO, which is equivalent to `git -C /repo apply` + run + `git -C /repo checkout -- .` but cannot disturb a
+# background run that is using /repo at the same time.
 ID="$1"; PATCH="$(realpath "$2")"; SEED="${3:-1}"
-cd /repo && git diff --quiet || { echo "repo dirty"; exit 2; }
-git apply "$PATCH" || { echo "patch does not apply"; exit 2; }
-cd /verif && VERIF_SEED=$SEED ./check "$ID" --tier quick > out/try_$ID.log 2>&1; rc=$?
-git -C /repo checkout -- .
-grep -E "^VIOLATION|clause=" out/try_$ID.log | head -6
+WT=/tmp/wt/try.$$
+git -C /repo worktree add --detach -q "$WT" HEAD || { echo "cannot create worktree"; exit 2; }
+trap 'git -C /repo worktree remove --force "$WT" >/dev/null 2>&1' EXIT
+git -C "$WT" apply "$PATCH" || { echo "patch does not apply"; exit 2; }
+cd /verif && mkdir -p out && VERIF_REPO="$WT" VERIF_SEED=$SEED ./check "$ID" --tier quick > out/try_$ID.$$.log 2>&1; rc=$?
+grep -E "^VIOLATION|clause=" out/try_$ID.$$.log | head -6
+rm -f out/try_$ID.$$.log
 echo "exit=$rc"
